@@ -363,8 +363,10 @@ func colorOfModel(model, raw string) color.Color {
 	panic("bad colour model " + model)
 }
 
+// optsOfToks returns the options in a slice with spare capacity (nil slots), so that a callee that appends
+// to its variadic parameter writes into memory the caller can see: spareModified reports that.
 func optsOfToks(t []string) []decode.DecodeOption {
-	var o []decode.DecodeOption
+	o := make([]decode.DecodeOption, 0, len(t)+4)
 	for _, s := range t {
 		switch {
 		case strings.HasPrefix(s, "OP:"):
@@ -381,6 +383,15 @@ func optsOfToks(t []string) []decode.DecodeOption {
 		}
 	}
 	return o
+}
+
+func spareModified(o []decode.DecodeOption) bool {
+	for _, x := range o[len(o):cap(o)] {
+		if x != nil {
+			return true
+		}
+	}
+	return false
 }
 
 func decStr(b []byte, opts ...decode.DecodeOption) string {
@@ -411,7 +422,12 @@ func init() {
 		return strings.Join(obs, " ")
 	}
 	handlers["DEC"] = func(a []string) string {
-		return decStr(hexarg(a[0]), optsOfToks(a[1:])...)
+		o := optsOfToks(a[1:])
+		s := decStr(hexarg(a[0]), o...)
+		if spareModified(o) {
+			return "OPTIONS-SLICE-MODIFIED"
+		}
+		return s
 	}
 	handlers["DVB"] = func(a []string) string {
 		vb, err := decode.DecodeViewBox(hexarg(a[0]))
